@@ -443,7 +443,7 @@ class Gen:
         elif k == 'set_tags' and self.w.nodes:
             self.do(('set_tags', rng.randrange(len(self.w.nodes)), rng.choice([[], ['suppress'], ['q'], ['q', 'r']])))
         elif k == 'set_extras' and self.w.nodes:
-            self.do(('set_extras', rng.randrange(len(self.w.nodes)), rng.choice([{}, {'m': 2}, {'n': {'o': [1, 2]}}])))
+            self.do(('set_extras', rng.randrange(len(self.w.nodes)), rng.choice([{}, {'m': 2}, {'n': {'o': [1, 2]}}, {'reached_at': {0: 10.0, 3: 2.5}}, {'pos': (1, 2)}])))
         elif k == 'copy':
             if self.closed():
                 self.do(('copy',))
